@@ -1,0 +1,12 @@
+//go:build !verif
+
+package object
+
+import "io"
+
+// No-op twins of verif_crash.go: without the verif build tag there are no crash points
+// and writers are not wrapped.
+
+func verifCrashPoint(string) {}
+
+func verifWriter(w io.Writer) io.Writer { return w }
